@@ -296,6 +296,7 @@ pub fn gen_c04(rng: &mut Rng, tier: Tier) -> C04Plan {
     let class = if cfg.flavour == 3 { 0 } else { *rng.pick(&[0u8, 0, 1, 3]) };
     let (w, h) = gen_size(rng, class);
     let (fl, w, h) = flavour_for(rng, &cfg, w, h);
+    let (mut fl, mut w, mut h) = (fl, w, h);
     let sor = cfg.is_sorenson();
     let n = 2 + rng.usize(if tier == Tier::Quick { 9 } else { 15 });
     let tr_policy = rng.below(6);
@@ -331,6 +332,15 @@ pub fn gen_c04(rng: &mut Rng, tier: Tier) -> C04Plan {
         }
         let first = i == 0 && !start_without_i;
         let (spec, note, transit, io): (PicSpec, String, Vec<Transit>, Option<(u64, SrcFault)>) = if first || (!have_ref && r < 60) || r < 22 {
+            if sor && !first && rng.chance(1, 6) {
+                // a size change, valid at an intra picture (Sorenson mode; standard mode
+                // answers a format change with "unimplemented")
+                let (nw, nh) = gen_size(rng, class);
+                let (nfl, nw, nh) = flavour_for(rng, &cfg, nw, nh);
+                fl = nfl;
+                w = nw;
+                h = nh;
+            }
             let s = gen_textured_intra(rng, &cfg, fl.clone(), w, h, tr);
             (s, "I".into(), vec![], None)
         } else if r < 40 && sor {
